@@ -356,7 +356,8 @@ func routingSweeps(r rm.Router, tier string, lite bool) []sweep {
 		mh := rs.HeaderUniverse{Consumes: [][]string{nil, {rs.JSON}}, Produces: [][]string{nil, {rs.XML}}, Ifs: [][]rm.Cond{nil}, NoCT: [][]string{nil, {"PATCH", "HEAD"}},
 			CTs: []string{"", rs.JSON, "text/plain"}, Accepts: []string{"", rs.XML, "text/plain"}, XCs: []string{""}, Bodies: []bool{false, true}}
 		ma := headerAtoms("/m", []string{"/{x}"}, allMethods, mh.Decls())
-		mreqs := crossReqs([]h.Req{{Segs: []string{"m", "1"}}}, allMethods, mh.Combos(), false)
+		// request methods: also a lower-case spelling and methods no route can have here
+		mreqs := crossReqs([]h.Req{{Segs: []string{"m", "1"}}}, append(append([]string{}, allMethods...), "get", "CONNECT", "TRACE"), mh.Combos(), false)
 		out = append(out, sweep{"M1", r, singles(ma), mreqs}, sweep{"M2", r, pairs(ma), mreqs})
 		// (D1) Consumes / Produces declared on the WebService and inherited by routes without their own
 		out = append(out, sweep{"D1", r, defaultsTables(), crossReqs([]h.Req{{Segs: []string{"d", "1"}}}, []string{"GET", "POST"}, hu.Combos(), false)})
